@@ -167,6 +167,9 @@ def tlc_replay_each(spec_files, module, cfg, traces, work, timeout=600, procs=No
 def tlc_ok(r, what):
     """A design-level TLC run must finish without error; otherwise it is a harness/spec failure."""
     if r["invariant_violated"] or r["property_violated"] or r["errors"] or not r["finished"] or r["distinct"] == 0:
+        if os.environ.get("VERIF_D_NONFATAL"):   # investigation only: go on to the real-code part
+            print("D-LAYER (non fatal): %s: %s %s" % (what, r["invariant_violated"], r["errors"][:1]), file=sys.stderr)
+            return
         raise HarnessError("TLC run '%s' did not complete cleanly:\n%s" % (what, r["out"][-3000:]))
 
 
